@@ -697,6 +697,9 @@ def assemble(unit_path, repo=REPO):
                     depth += 1
                 elif ch in ')]}':
                     depth -= 1
+                    if depth < 0 and kv.get('end') == 'block':
+                        # `end=block`: every statement up to the brace that closes the enclosing block (tail expression included)
+                        break
                 elif ch == ';' and depth == 0:
                     break
                 e1 += 1
